@@ -85,7 +85,7 @@ def run_shard(ctx):
     def test(case):
         runner.guarded(ctx, check_case, case)
 
-    runner.drive(ctx, test, ctx.n(6400, 80000))
+    runner.drive(ctx, test, ctx.n(9000, 100000))
 
 
 def replay(ctx, case):
